@@ -41,6 +41,9 @@ impl LocalServer {
 
     // SQL helpers (A8, TRUSTED): bodies are SQL text run through rusqlite; each is ONE SQLite transaction, so a failure or
     // a stop inside one leaves the database as it was.  Their text is hashed; a change makes the check UNDECIDED.
+//@trusted src/server/local/mod.rs :: struct LocalServer
+//@trusted src/server/local/mod.rs :: impl LocalServer :: fn txn
+//@trusted src/server/local/mod.rs :: impl LocalServer :: fn new
 //@trusted src/server/local/mod.rs :: impl LocalServer :: fn get_latest_version_id
     #[verifier::external_body]
     fn get_latest_version_id(&mut self) -> (r: Result<VersionId>)
